@@ -141,7 +141,7 @@ impl<const N: usize> Ex<N> {
             c |= match viol {
                 Viol::GarbageTouched => cls::GARBAGE,
                 Viol::DeadTouched | Viol::StaleDropped | Viol::LeakedTouched => cls::GARBAGE | famcls,
-                Viol::DoubleDrop => famcls,
+                Viol::DoubleDrop => cls::GARBAGE | famcls,
             };
         }
         c
@@ -556,13 +556,8 @@ impl<const N: usize> Ex<N> {
             Viol::GarbageTouched => cls::GARBAGE,
             Viol::DeadTouched => cls::GARBAGE | if famcls != 0 { famcls } else { cls::LEDGER },
             Viol::StaleDropped => cls::GARBAGE | if famcls != 0 { famcls } else { cls::LEDGER },
-            Viol::DoubleDrop => {
-                if famcls != 0 {
-                    famcls
-                } else {
-                    cls::LEDGER
-                }
-            }
+            // a second destructor run destroys a slot that holds no live element any more (C04)
+            Viol::DoubleDrop => cls::GARBAGE | if famcls != 0 { famcls } else { cls::LEDGER },
             Viol::LeakedTouched => cls::GARBAGE | famcls,
         };
         // drain and constructor steps state "destroyed exactly once" themselves (C09, C12)
